@@ -116,10 +116,15 @@ def run_world(arg):
     names = arg[3] if len(arg) > 3 else None
     if names:
         names = [None if x is None else x.encode("latin-1") for x in names]
+    opts = arg[4] if len(arg) > 4 else {}
     import psutil
     w = build_world(parents, ranks, seed, names)
     use_world(w)
     w.logging = False
+    if opts.get("rev"):
+        # a procfs whose listing is not in ascending pid order (lxcfs-like), and a program that has listed pids before
+        w.listing_reversed = True
+        outcome(psutil.pids)
     count = [0]
 
     def hook(world, kind, subj, pid):
@@ -174,9 +179,11 @@ def run_world(arg):
 
 def run_reused(arg):
     """the caller's own pid has been recycled: everything raises NoSuchProcess"""
-    parents, ranks, seed, victim = arg
+    parents, ranks, seed, victim = arg[:4]
     import psutil
     w = build_world(parents, ranks, seed)
+    if len(arg) > 4 and arg[4]:
+        w.mypid = victim          # the recycled pid is the one of the interpreter that calls psutil (object inherited over fork)
     use_world(w)
     w.logging = False
     pr = psutil.Process(victim)
@@ -331,21 +338,27 @@ def run(ctx):
                 names[who] = nm.decode("latin-1")
                 worlds.append((list(parents), [0, 1, 2], ctx.seed, names))
                 named += 1
+    for parents in itertools.product(range(0, 5), repeat=3):
+        worlds.append((list(parents), [0, 1, 2], ctx.seed, None, {"rev": True}))
+        worlds.append((list(parents), [2, 1, 0], ctx.seed, None, {"rev": True}))
     res = ctx.pmap(run_world, worlds)
     viols, skipped = [], 0
     for wd, (bad, sk) in zip(worlds, res):
         skipped += sk
         for cause, msg in bad:
-            viols.append({"cause": cause + (":adversarial-name" if len(wd) > 3 else ""), "msg": msg,
-                          "case": {"parents": wd[0], "ranks": wd[1], "names": wd[3] if len(wd) > 3 else None}})
+            viols.append({"cause": cause + (":adversarial-name" if len(wd) > 3 and wd[3] else "") + (":unordered-listing" if len(wd) > 4 else ""),
+                          "msg": msg, "case": {"parents": wd[0], "ranks": wd[1], "names": wd[3] if len(wd) > 3 else None,
+                                               "opts": wd[4] if len(wd) > 4 else None}})
     reused = []
     for parents in itertools.product(range(0, 5), repeat=3):
         for victim in (1, 2, 3):
             reused.append((list(parents), [0, 1, 2], ctx.seed, victim))
+            reused.append((list(parents), [0, 1, 2], ctx.seed, victim, True))
     res2 = ctx.pmap(run_reused, reused)
     for wd, (bad, _) in zip(reused, res2):
         for cause, msg in bad:
-            viols.append({"cause": cause, "msg": msg, "case": {"parents": wd[0], "ranks": wd[1], "recycled": wd[3]}})
+            viols.append({"cause": cause + (":own-pid" if len(wd) > 4 else ""), "msg": msg,
+                          "case": {"parents": wd[0], "ranks": wd[1], "recycled": wd[3], "own": len(wd) > 4}})
     hist = []
     for parents in itertools.product(range(0, 4), repeat=3):
         for victim in (1, 2, 3):
@@ -380,7 +393,7 @@ def replay(ctx, case):
         bad, _ = run_after_history((case["parents"], case["ranks"], ctx.seed, case["after_history"][0], case["after_history"][1]))
         return {"violated": bool(bad), "viols": bad}
     if "recycled" in case:
-        bad, _ = run_reused((case["parents"], case["ranks"], ctx.seed, case["recycled"]))
+        bad, _ = run_reused((case["parents"], case["ranks"], ctx.seed, case["recycled"], bool(case.get("own"))))
     else:
-        bad, _ = run_world((case["parents"], case["ranks"], ctx.seed, case.get("names")))
+        bad, _ = run_world((case["parents"], case["ranks"], ctx.seed, case.get("names"), case.get("opts") or {}))
     return {"violated": bool(bad), "viols": bad}
